@@ -55,6 +55,7 @@ def main(argv=None) -> int:
             raise
         if args.tier == "thorough" and not os.environ.get("VERIF_NO_SELFVALIDATION"):
             _self_validation(ctx, pid, args.repo)
+            _metamorphic(ctx, pid, args.repo)
         rc = finish(ctx, args.evidence_dir)
         if args.replay:
             _replay(ctx, args.replay, program)
@@ -91,6 +92,71 @@ def _self_validation(ctx: Ctx, pid: str, repo: str) -> None:
         print(f"{pid} self-validation: {len(results)} variants " + " ".join(f"{k}={v}" for k, v in sorted(tally.items())))
     except Exception as e:  # noqa: BLE001
         ctx.note("self_validation", {"error": str(e)[:200]})
+
+
+def _metamorphic(ctx: Ctx, pid: str, repo: str) -> None:
+    """Thorough tier: the verdict of this property's rules must not change under behaviour-preserving rewrites of
+    the whole package (tools/metamorph.py T1..T10, applied in memory).  Recorded in the evidence; like the
+    self-validation it never changes the exit code of a manifest command."""
+    try:
+        import importlib
+        import io
+        import contextlib
+        sys.path.insert(0, os.path.join(VERIF, "tools"))
+        import metamorph
+        metamorph.REPO = repo
+        base = sorted(f.key for f in ctx.findings)
+        mod = importlib.import_module(f"rules.{pid.lower()}")
+        sources = {}
+        for root, _d, files in os.walk(os.path.join(repo, "optuna")):
+            for fn in files:
+                if fn.endswith(".py"):
+                    path = os.path.join(root, fn)
+                    sources[os.path.relpath(path, repo)] = open(path, encoding="utf-8").read()
+        from concurrent.futures import ProcessPoolExecutor
+        names = [t for t in metamorph.TRANSFORMS if t != "T0"]
+        with ProcessPoolExecutor(max_workers=min(10, os.cpu_count() or 1)) as ex:
+            results = list(ex.map(_metamorphic_one, [(pid, repo, t, ctx.tier) for t in names]))
+        changed = {t: r for t, r in zip(names, results) if r != base}
+        ctx.note("metamorphic", {"transforms": names, "verdict_changes": {t: (r if isinstance(r, str) else sorted(set(r) ^ set(base))[:5]) for t, r in changed.items()},
+                                 "rule": "same set of finding keys on every transformed tree"})
+        print(f"{pid} metamorphic: {len(names)} whole-package rewrites, verdict changed on {len(changed)}" + (f" {sorted(changed)}" if changed else ""))
+    except Exception as e:  # noqa: BLE001
+        ctx.note("metamorphic", {"error": str(e)[:200]})
+
+
+def _metamorphic_one(job):
+    pid, repo, tname, tier = job
+    import importlib
+    import io
+    import contextlib
+    sys.path.insert(0, os.path.join(VERIF, "tools"))
+    import metamorph
+    metamorph.REPO = repo
+    try:
+        if tname == "T10" and not metamorph.RenamePrivateFuncs.NAMES:
+            metamorph.RenamePrivateFuncs.NAMES = metamorph._collect_private_funcs()
+        ov = {}
+        for root, _d, files in os.walk(os.path.join(repo, "optuna")):
+            for fn in files:
+                if fn.endswith(".py"):
+                    path = os.path.join(root, fn)
+                    src = open(path, encoding="utf-8").read()
+                    try:
+                        ov[os.path.relpath(path, repo)] = metamorph.transform_source(src, tname)
+                    except SyntaxError:
+                        pass
+        program = Program(repo, overrides=ov)
+        c2 = Ctx(pid, program, tier, 0)
+        mod = importlib.import_module(f"rules.{pid.lower()}")
+        with contextlib.redirect_stdout(io.StringIO()):
+            try:
+                mod.run(c2)
+            except AnalysisError as e:
+                return f"ANALYSIS-ERROR {e}"[:200]
+        return sorted(f.key for f in c2.findings)
+    except Exception as e:  # noqa: BLE001
+        return f"ERROR {type(e).__name__}: {e}"[:200]
 
 
 def _replay(ctx: Ctx, path: str, program: Program) -> None:
